@@ -246,3 +246,18 @@ Fixpoint is_prefix (a b : str) : bool :=
   | x :: a', y :: b' => (x =? y) && is_prefix a' b'
   | _ :: _, [] => false
   end.
+
+(* PathBuf::push onto a VERBATIM windows root (`\\?\C:\cache`, std/src/path.rs _push): the argument
+   is not appended textually; its components are replayed onto the root's component list — `.` and
+   empty components are dropped, `..` pops a Normal component (never the prefix or root, which are
+   kept outside [buf] here), everything else is pushed — and the result is re-serialised with '\'.
+   [buf] = the root's Normal components, [comps] = the argument split on either separator
+   (the argument itself is an ordinary, non-verbatim path). *)
+Fixpoint verbatim_push (buf : list str) (comps : list str) : list str :=
+  match comps with
+  | [] => buf
+  | c :: r =>
+      if (match c with [] => true | _ => false end) || str_eqb c [46] then verbatim_push buf r
+      else if str_eqb c dotdot then verbatim_push (removelast buf) r
+      else verbatim_push (buf ++ [c]) r
+  end.
